@@ -105,9 +105,11 @@ func c20Body(g *Gen, tier string) []byte {
 		n := g.Intn(6)
 		for i := 0; i < n; i++ {
 			b.Write(c20Filler(g, g.Intn(120), g.Intn(40)))
-			switch g.Intn(6) {
+			switch g.Intn(4) {
 			case 0:
-				b.WriteString(Pick(g, []string{"<", "<l", "</", "</hex", "<styl", "<\xffscript", "<li\x00nk", "\x1c/head", "<\x0fhead", "<scr\xe9ipt"}))
+				// near-markers and other tags of a page: only the four markers count, whatever precedes them
+				b.WriteString(Pick(g, []string{"<", "<l", "</", "</hex", "<styl", "<\xffscript", "<li\x00nk", "\x1c/head", "<\x0fhead", "<scr\xe9ipt",
+					"<body>", "<BODY class=x>", "<body", "</body>", "<html>", "<head>", "<!-- <head", "<title>", "<meta charset=x>", "<div>", "<bodyguard>", "<noscript>", "<p>"}))
 			default:
 				b.WriteString(c20MixCase(g, Pick(g, c20Markers)))
 			}
